@@ -16,6 +16,7 @@ import (
 
 func main() {
 	run := ev.Start("C03")
+	defer run.Guard()
 	gen2.Run(run)
 	gen1.Run(run)
 	gen2.Envelopes(run) // wire envelopes of every method kind (hand-written kit through the generic client functions)
